@@ -40,6 +40,8 @@ was confirmed so by its author's differential demo). The requirement is that no 
 %d harmless refactorings, %d alarms. A rewritten function loses its proof anchors (the contract names statements and loops of the
 old body), so the deductive run answers UNDECIDED and the bounded stand-ins, which only look at behaviour, pass: exit 2, no VIOLATION line.
 ''' % (len(harmless), sum(1 for h in harmless if 'FALSE ALARM' in h))
+if os.path.exists(os.path.join(V, 'tools', 'sec09.md')):
+    summary += '\n' + open(os.path.join(V, 'tools', 'sec09.md')).read()
 p = os.path.join(V, 'tools', 'sec0.md')
 t = open(p).read()
 t = t[:t.index('### 0.8 Seeded breaking changes')] + head + '\n'.join(rows) + summary
